@@ -136,12 +136,7 @@ def _enumerate_comp_index_rebound(fn) -> bool:
     return False
 
 def classify(d, fn, xf):
-    # F61: EnumerateElim (comprehension path) lets an inner comprehension that re-binds the index name capture the inserted `xs[i]`
-    if ('elim_iter' in d['strategy'] or 'EnumerateElim' in d['strategy']) and 'enumerate=False' not in d['strategy']:
-        try:
-            if _enumerate_comp_index_rebound(fn): return 'F61'
-        except Exception:
-            pass
+    # (F61, enumerate elimination capturing an inner comprehension's binder, was repaired in /repo and is no longer tagged)
     if 'fuse' in d['strategy'] or 'ReduceFusion' in d['strategy']:
         if d['transformed_result'].startswith('err') and _has_lazy_reduction(fn): return 'F54'
     return None
